@@ -22,6 +22,8 @@ PROFILES = {
     # transfers only: what the recipe moves is conserved over all declared objects, and wells no step addresses keep their contents
     'C01': {'step_w': {'transfer': 1}, 'p_illegal': 0.03, 'p_infeasible': 0.0, 'p_stage': 0.1, 'post': (0, 0), 'steps': (2, 9), 'p_subslice': 0.3,
             'p_top_up': 0.0},
+    'C02': {'step_w': {'transfer': 1}, 'p_illegal': 0.02, 'p_infeasible': 0.0, 'p_stage': 0.1, 'post': (0, 0), 'steps': (2, 9), 'p_subslice': 0.3,
+            'p_top_up': 0.0},
     'C07': {'step_w': dict(STEP_W, transfer=10, remove=4, fill_to=4, dilute=0.3, solution=0.5, solution_from=0.2), 'p_illegal': 0.03, 'p_infeasible': 0.0, 'p_stage': 0.1, 'post': (0, 0), 'steps': (2, 8)},
 }
 
@@ -155,9 +157,40 @@ def run_generated(prop, seed, run_idx, tier, known=None):
                     break
     if run.lc.open_stage is not None and rng.random() < 0.5:
         emit({'c': 'end_stage', 'name': run.lc.open_stage})
+    pre = []
+    if run.steps and rng.random() < profile.get('p_pre_queries', 0.15):
+        from . import tracking
+        used_names = sorted(set().union(*[s['uses'] for s in run.steps]) & set(run.handles))
+        closed = sorted(run.lc.stages) + ['all']
+        for _ in range(rng.randint(1, 3)):
+            if used_names:
+                pre.append({'c': 'q_pre', 'obj': rng.choice(used_names), 'tf': rng.choice(closed), 'unit': rng.choice(tracking.FLOW_UNITS)})
+        for q in pre:
+            emit(q)
     emit({'c': 'bake'})
+    if prop == 'C16' and run.bake_failed and run.baked is None and not run.recipe.locked and run.eager_ok and rng.random() < 0.5:
+        # the bake was refused (an unused object): the user repairs the recipe, perhaps declares one more thing, and bakes again.
+        # What the second bake does to the *values* is a known finding (steps applied twice); whether it may be baked at all
+        # is judged: it still must not bake while something declared is unused.
+        for n in list(run.lc.unused()):
+            for _ in range(8):
+                c = g.step_using(n)
+                if c is None:
+                    break
+                if run.try_eager(c)[0] == 'ok':
+                    emit(c)
+                    break
+        und = [n for n in g.undeclared if n not in run.lc.declared]
+        if und and rng.random() < 0.6:
+            emit({'c': 'uses', 'objs': [und[0]]})
+        elif rng.random() < 0.3:
+            emit({'c': 'create_container', 'name': f"late{rng.randrange(1000)}", 'cap': '1 mL', 'contents': []})
+        run.stats['probe:bake_again_after_refusal'] += 1
+        emit({'c': 'bake'})
     if run.baked is not None:
         from . import tracking
+        for q in pre:
+            emit({'c': 'q_flows', 'obj': q['obj'], 'tf': q['tf'], 'unit': q['unit'], 'explicit': True, 'pass_result': False})
         for q in tracking.gen_queries(run, rng, profile.get('n_queries', 8)):
             emit(q)
     lo, hi = profile['post']
